@@ -30,6 +30,15 @@ those as usual.  Every derivation fails closed: an unexpected shape of the ancho
   riem_gram       compare_neg_riemannian_distance: the T block `[0.5 * pairs, np.diag(-0.5 * ...)]`
                   with `pairs[pairs == -1] = 1`                              -> 0.5 * (di + dj) + -0.5 * dij
   riem_neg        _riemannian_distance: `neg_riem = -1 * theta.fun`
+
+Round 4 (aliasing / purity of a `compare()` call, used by the reuse-session model):
+  parse_alias     _parse_input_rdms: number of `return` paths that hand on an array which is not a fresh
+                  copy (boolean-mask indexing `v[mask]`, `.copy()`, `np.array(..)` are fresh; a bare
+                  parsed name, `np.asarray`, `.reshape`, a slice are not)          -> 0 on a pure parser
+  inplace_writes  each `compare_*` function (code = position in the method list): 1 if a statement writes
+                  in place (`v -= ..`, `v[..] = ..`, `out=v`, `v.sort()` ..) into `vector1` / `vector2`
+                  while the name is still bound to the array `_parse_input_rdms` returned, or a helper
+                  (`_cosine`, `_cov_weighting`, `_tau_a` ..) writes into its `vector*` parameters; else 0
 """
 import ast
 import os
@@ -415,6 +424,149 @@ def d_rank_tie_keep():
     return f'(1 if {ast.unparse(v.slice)} else 0)'
 
 
+# ---- round 4: aliasing / in-place writes (purity of a call)
+
+_FRESH_CALLS = ('np.array', 'np.copy', 'np.ascontiguousarray_copy')
+
+
+def _is_fresh_expr(fn, e, depth=0):
+    """does evaluating `e` always create a new array (never a view / the operand itself)?"""
+    if isinstance(e, ast.BinOp) or isinstance(e, ast.UnaryOp):
+        return True                                   # arithmetic allocates its result
+    if isinstance(e, ast.Call):
+        f = ast.unparse(e.func)
+        if any(k.arg == 'out' for k in e.keywords):
+            return False
+        if f in _FRESH_CALLS or f == 'np.apply_along_axis':
+            return not any(k.arg == 'copy' for k in e.keywords)
+        if isinstance(e.func, ast.Attribute) and e.func.attr == 'copy' and not e.args:
+            return True
+        if isinstance(e.func, ast.Attribute) and e.func.attr == 'reshape':
+            return _is_fresh_expr(fn, e.func.value, depth)      # a view of something fresh
+        return False
+    if isinstance(e, ast.Subscript):
+        # advanced indexing with a boolean mask copies; the mask must be `~np.isnan(..)` of the function
+        idx = e.slice
+        if isinstance(idx, ast.Name):
+            src = _assigns(fn, idx.id)
+            if len(src) == 1 and ast.unparse(src[0].value).startswith('~np.isnan('):
+                return True
+        return False
+    if isinstance(e, ast.Name) and depth < 3:
+        src = _assigns(fn, e.id)
+        if len(src) == 1:
+            return _is_fresh_expr(fn, src[0].value, depth + 1)
+    return False
+
+
+def d_parse_alias():
+    fn = _func(CMP, '_parse_input_rdms')
+    rets = [n for n in ast.walk(fn) if isinstance(n, ast.Return)]
+    if not rets:
+        raise Underivable('_parse_input_rdms has no return')
+    bad = 0
+    for r in rets:
+        if not (isinstance(r.value, ast.Tuple) and len(r.value.elts) == 3):
+            raise Underivable(f'unexpected return `{ast.unparse(r)}`')
+        if not all(_is_fresh_expr(fn, e) for e in r.value.elts[:2]):
+            bad += 1
+    return str(bad)
+
+
+_CMP_FUNCS = ['compare_cosine', 'compare_correlation', 'compare_spearman', 'compare_kendall_tau',
+              'compare_kendall_tau', 'compare_kendall_tau_a', 'compare_rho_a',
+              'compare_correlation_cov_weighted', 'compare_cosine_cov_weighted',
+              'compare_bures_similarity', 'compare_bures_metric', 'compare_neg_riemannian_distance']
+_MUTATORS = ('sort', 'fill', 'resize', 'put', 'itemset', 'partition', 'setfield', 'byteswap')
+
+
+_HELPERS = ['_all_combinations', '_cosine_cov_weighted_slow', '_cosine_cov_weighted', '_cov_weighting',
+            '_cosine', '_kendall_tau', '_tau_a', '_sort_and_rank']
+
+
+def _inplace_writes(name, helper=False):
+    """1 if `name` writes in place into vector1 / vector2 while they are the parsed arrays
+    (helper=True: into its own `vector*` parameters, which are the parsed arrays of its callers)"""
+    fn = _func(CMP, name)
+    parsed = set()
+    seen_parse = False
+    writes = 0
+    if helper:
+        parsed = {a.arg for a in fn.args.args if a.arg.startswith('vector')}
+        if not parsed:
+            raise Underivable(f'{name} has no vector parameter')
+        seen_parse = True
+
+    def base(t):
+        while isinstance(t, (ast.Subscript, ast.Attribute)):
+            t = t.value
+        return t.id if isinstance(t, ast.Name) else None
+
+    def flat(stmts):
+        for st in stmts:
+            if isinstance(st, (ast.If, ast.For, ast.While, ast.With)):
+                hdr = st.test if isinstance(st, (ast.If, ast.While)) else None
+                if hdr is not None:
+                    yield ast.Expr(value=hdr)
+                yield from flat(st.body)
+                yield from flat(getattr(st, 'orelse', []))
+            else:
+                yield st
+    for st in flat(fn.body):
+        if isinstance(st, ast.Expr) and isinstance(st.value, ast.Constant):
+            continue                                        # docstring
+        if not isinstance(st, (ast.Assign, ast.AugAssign, ast.Return, ast.Expr, ast.Raise, ast.Assert,
+                               ast.Pass)):
+            raise Underivable(f'{name}: unexpected statement `{ast.unparse(st)[:60]}`')
+        # calls that write through `out=` or a mutating method, anywhere in the statement
+        for c in [n for n in ast.walk(st) if isinstance(n, ast.Call)]:
+            for k in c.keywords:
+                if k.arg == 'out' and base(k.value) in parsed:
+                    writes += 1
+            if isinstance(c.func, ast.Attribute) and c.func.attr in _MUTATORS and base(c.func.value) in parsed:
+                writes += 1
+            if ast.unparse(c.func) in ('np.putmask', 'np.place', 'np.copyto', 'np.put') and c.args \
+                    and base(c.args[0]) in parsed:
+                writes += 1
+        if isinstance(st, ast.AugAssign):
+            if base(st.target) in parsed:
+                writes += 1
+        elif isinstance(st, ast.Assign):
+            for t in st.targets:
+                if isinstance(t, ast.Tuple):
+                    if ast.unparse(st.value).startswith('_parse_input_rdms('):
+                        names = [e.id for e in t.elts if isinstance(e, ast.Name)]
+                        parsed.update(names[:2])
+                        seen_parse = True
+                    else:
+                        for e in t.elts:
+                            if isinstance(e, ast.Name):
+                                parsed.discard(e.id)
+                elif isinstance(t, ast.Name):
+                    if t.id in parsed and _is_fresh_expr(fn, st.value):
+                        parsed.discard(t.id)              # rebound to a new array
+                    elif base(st.value) in parsed and not _is_fresh_expr(fn, st.value):
+                        parsed.add(t.id)                  # another name for (a view of) the parsed array
+                elif base(t) in parsed:
+                    writes += 1                           # v[...] = ...
+    if not seen_parse:
+        raise Underivable(f'{name} does not call _parse_input_rdms')
+    return 1 if writes else 0
+
+
+def d_inplace_writes():
+    # a helper that writes into its vector parameters taints every method (conservative)
+    taint = 1 if any(_inplace_writes(h, helper=True) for h in _HELPERS) else 0
+    vals = [max(taint, _inplace_writes(f)) for f in _CMP_FUNCS]
+    lines, ind = [], 4
+    for k, v in enumerate(vals[:-1]):
+        pad = ' ' * ind
+        lines += [f'{pad}if code == {k}:', f'{pad}    return {v}', f'{pad}else:']
+        ind += 4
+    lines.append(' ' * ind + f'return {vals[-1]}')
+    return '\n'.join(lines)
+
+
 def _derive():
     out = ['# DERIVED by harness/leaves/C03.py from the source tree under check - do not edit', '']
 
@@ -445,6 +597,8 @@ def _derive():
     emit('rank_tie_keep', ['cnt'], d_rank_tie_keep)
     emit('riem_gram', ['di', 'dj', 'dij'], d_riem_gram)
     emit('riem_neg', ['f'], d_riem_neg)
+    emit('parse_alias', ['n_rdm'], d_parse_alias)
+    emit('inplace_writes', ['code'], d_inplace_writes, block=True)
 
     text = '\n'.join(out)
     if not (os.path.exists(DERIVED) and open(DERIVED).read() == text):
@@ -511,4 +665,7 @@ LEAVES = [
     _d('ckaCentre', 'cka_centre', {'w': 'A', 'msum': 'A', 'mm': 'A'}),
     _d('riemGram', 'riem_gram', {'di': 'A', 'dj': 'A', 'dij': 'A'}),
     _d('riemNeg', 'riem_neg', {'f': 'A'}),
+    # ---- round 4
+    _d('parseAlias', 'parse_alias', {'n_rdm': 'Nat'}, ret='Nat'),
+    _d('inplaceWrites', 'inplace_writes', {'code': 'Nat'}, ret='Nat'),
 ]
